@@ -167,6 +167,15 @@ pub trait Translator {
             let block_translation_result =
                 self.translate_block(&block_bytes, block_address, options)?;
 
+            // a block without instructions has no entry and no exit vertex to
+            // connect edges to
+            if block_translation_result.instructions().is_empty() {
+                return Err(Error::Custom(format!(
+                    "translate_block returned no instructions for 0x{:x}",
+                    block_address
+                )));
+            }
+
             // enqueue all successors
             for successor in block_translation_result.successors().iter() {
                 if !translation_queue.contains(&successor.0) {
